@@ -91,7 +91,9 @@ def align_shape(*polys: PolyLike) -> Tuple[ndpoly, ...]:
         if poly.shape != common.shape:
             polys_[idx] = poly.from_attributes(
                 exponents=poly.exponents,
-                coefficients=tuple(coeff * common for coeff in poly.coefficients),
+                # (an empty array lists no coefficients: keep its shape)
+                coefficients=tuple(coeff * common for coeff in poly.coefficients)
+                or tuple(numpy.zeros(common.shape, dtype=poly.dtype) for _ in poly.keys),
                 names=poly.indeterminants,
             )
     return tuple(polys_)
@@ -153,7 +155,9 @@ def align_indeterminants(*polys: PolyLike) -> Tuple[ndpoly, ...]:
             exponents[:, indices] = poly.exponents
         polys_[idx] = numpoly.ndpoly.from_attributes(
             exponents=exponents,
-            coefficients=poly.coefficients,
+            # (an empty array lists no coefficients: keep its shape)
+            coefficients=poly.coefficients
+            or [numpy.zeros(poly.shape, dtype=poly.dtype) for _ in poly.keys],
             names=common_names,
             retain_coefficients=True,
             retain_names=True,
@@ -214,7 +218,7 @@ def align_exponents(*polys: PolyLike) -> Tuple[ndpoly, ...]:
         lookup = {
             tuple(exponent): coefficient
             for exponent, coefficient in zip(poly.exponents, poly.coefficients)
-        }
+        }  # (empty for an array without elements: zeros of its shape below)
 
         zeros = numpy.zeros(poly.shape, dtype=poly.dtype)
         coefficients = [
